@@ -692,5 +692,31 @@ def r9_converters_guarded(a, tier):
     return rep
 
 
+def r10_message_renders(a, tier):
+    from ..rules.defassign import possibly_unbound
+    rep = RuleReport(
+        'C08.R10',
+        'a failure message always renders: in every function reachable from the rendering entry points of the exception classes '
+        '(__str__, render, message) - memento(), the colour helpers - no local name is read on a path on which it has not been '
+        'bound (definite assignment: a loop body may run zero times, e.g. for a text without lines; a try body may stop anywhere)',
+        floor=10,
+    )
+    starts = [q for q in a.p.functions if q.startswith('tatsu.exceptions.') and q.rsplit('.', 1)[1] in ('__str__', 'render', 'message')]
+    if not starts:
+        raise AnalysisError('tatsu.exceptions: no rendering entry points (__str__/render/message) found')
+    reach = a.callgraph.reach(starts)
+    for q in sorted(reach):
+        f = a.p.functions.get(q)
+        if f is None:
+            continue
+        hits = possibly_unbound(f)
+        rep.add({'function': q, 'possibly_unbound_reads': [(n, node.lineno) for node, n in hits]})
+        for node, name in hits:
+            rep.fail(q, f'unbound:{name}', f'`{name}` is read at {f.module.relpath}:{node.lineno} on a path on which nothing has bound it (e.g. '
+                     f'the loop that binds it does not run for an empty text): rendering the failure raises UnboundLocalError instead of '
+                     f'showing the message', f'{f.module.relpath}:{node.lineno}')
+    return rep
+
+
 RULES = [r1_one_factory, r2_sentinels, r3_cache_guards, r4_check_before_use, r5_progress, r6_scanner_bounds, r7_operand_coverage,
-         r8_eat_loops_terminate, r9_converters_guarded]
+         r8_eat_loops_terminate, r9_converters_guarded, r10_message_renders]
